@@ -296,7 +296,9 @@ pub fn c16(h: &mut H) {
             map_leaf(&mut z, &mut cnt, li, &f);
             h.stat("C16.leaf_negated");
             let v = rverify(h, &z, &g, &hh, &n, &a, &b);
-            let class = if path == ".E" || path == "E" { "C16.leaf_negated_E".to_string() } else { "C16.leaf_negated".to_string() };
+            // (known findings F16 / F17 are exactly the fields E and proof_of_square_{a,b}.F; any other negated element
+            // that is accepted is a new violation)
+            let class = if path == ".E" || path == "E" { "C16.leaf_negated_E".to_string() } else if path.ends_with(".F") { "C16.leaf_negated_F".to_string() } else { "C16.leaf_negated".to_string() };
             h.expect(!v.is_true(), &class, &format!("range proof accepted with the group element {} replaced by its negative modulo n", path), &[h.last()]);
         }
         // hash-valued leaves shifted by multiples of 2^128 (a verifier that compares challenges modulo 2^t)
